@@ -219,14 +219,19 @@ CLAIMS = {
                 "C13_listed_bank (a registry-based draw with bank and branch not pinned carries the chosen entry's code in the "
                 "bank-identifying field, so the bank looked up from the result is a listed bank of that country - for the "
                 "countries whose entries all carry a code of the field's width, all_fit, e.g. DE GB NL). "
-                "Not proved: that a BBAN.random result conforms to the structure classes at every position; this and reproducibility (the model is a function of the oracle outputs; the tie is that it is fed the "
+                "C13_conforms (with clean non-empty pins and draws of the country's BBAN length, in a country with positions, what "
+                "BBAN.random returns conforms to the country's BBAN structure at every position and has its length: placed values "
+                "passed the structure check, the computed check digits are of the class their field names, untouched positions "
+                "keep a '0' their class admits - per-row data obligation gen_conform_obl), C13_no_positions (without positions "
+                "the upper-cased draw itself comes back). "
+                "Not a theorem: reproducibility (the model is a function of the oracle outputs; the tie is that it is fed the "
                 "very choices the implementation saw, via a Random subclass and a wrapped Rstr.xeger, and must return the same "
                 "object) are decided by the streams: table-driven oracle (validity/conformity, country, pins, listed bank, second "
                 "equally seeded call identical) and a subprocess sweep over PYTHONHASHSEED. Fixed: pinned branch overridden "
                 "(b2d8752), out-of-class pins on other components (9a4a92a). Open findings: pinned computed digits replaced, "
                 "over-long pin truncated, pin ignored without positions.",
-        "note": COMMON_NOTE + " rstr and random.Random are oracles (their outputs are inputs of the model); the C13 stream oracle is Python written against Gen/facts.json. Partial: structure conformity of BBAN.random and hash-seed independence are stream-checked, not proved.",
-        "technique": "Coq proof over a model with explicit randomness oracle (validity, country, error class, pins) + instrumented correspondence + table-driven property oracle + hash-seed subprocess sweep",
+        "note": COMMON_NOTE + " rstr and random.Random are oracles (their outputs are inputs of the model); the C13 stream oracle is Python written against Gen/facts.json. Partial: hash-seed independence is stream-checked, not proved.",
+        "technique": "Coq proof over a model with explicit randomness oracle (validity, structure conformity, country, error class, pins, listed bank) + instrumented correspondence + table-driven property oracle + hash-seed subprocess sweep",
         "design_ref": "DESIGN.md §4 C13",
     },
     "C16": {
